@@ -1,2 +1,79 @@
-/-! regeneration from /repo FAILED: unsupported: SystemOfShapes.get_dependency_edges: expression self.x_ -/
-#check (regeneration_failed_see_header : Unit)
+import OdeVerif.Model.PyPrelude
+import OdeVerif.Model.Graph
+/-! GENERATED from /repo by harness/translate/py2lean.py -- do not edit.
+Literal translation of the Python bodies named below; modelling decisions (types, renderings of
+attribute accesses and external calls) are in harness/translate/specs.py. -/
+
+set_option linter.unusedVariables false
+
+namespace OdeVerif.Generated
+open OdeVerif
+
+-- source: odetoolbox/system_of_shapes.py :: SystemOfShapes.get_dependency_edges
+/-- `for (j, sym2) in enumerate(self.x_):` of `get_dependency_edges` -/
+def dependencyEdges_for2 (s : Graph.Sys) (i : Nat) (sym1 : Nat) : List (Nat × Nat) → List (Nat × Nat) → List (Nat × Nat)
+  | [], E => E
+  | (j, sym2) :: rest__, E =>
+    let E :=
+      if ((s.anz j i = true) ∨ (s.cdep j sym1 = true)) then
+        let E : List (Nat × Nat) := (E ++ [(sym2, sym1)])
+        E
+      else
+        E
+    dependencyEdges_for2 s i sym1 rest__ E
+
+/-- `for (i, sym1) in enumerate(self.x_):` of `get_dependency_edges` -/
+def dependencyEdges_for1 (s : Graph.Sys) : List (Nat × Nat) → List (Nat × Nat) → List (Nat × Nat)
+  | [], E => E
+  | (i, sym1) :: rest__, E =>
+    let E := dependencyEdges_for2 s i sym1 (Py.enumerateRange s.n) E
+    dependencyEdges_for1 s rest__ E
+
+/-- `get_dependency_edges` -- state variables are their indices (`enumerate(self.x_)` yields `(i, i)`); `not _is_zero(A[j,i])` is `s.anz j i`, `x_i in c[j].free_symbols` is `s.cdep j i` -/
+def dependencyEdges (s : Graph.Sys) : List (Nat × Nat) :=
+  let E : List (Nat × Nat) := []
+  let E := dependencyEdges_for1 s (Py.enumerateRange s.n) E
+  E
+
+-- source: odetoolbox/system_of_shapes.py :: SystemOfShapes.propagate_lin_cc_judgements
+/-- `for n_neigh in dependent_neighbours:` of `propagate_lin_cc_judgements` -/
+def propagate_for2  : List Nat → (Nat → Bool) → List Nat → ((Nat → Bool) × List Nat)
+  | [], node_is_lin, queue => (node_is_lin, queue)
+  | n_neigh :: rest__, node_is_lin, queue =>
+    match (if (node_is_lin n_neigh = true) then
+      let node_is_lin : Nat → Bool := (Py.update node_is_lin n_neigh false)
+      let queue : List Nat := (queue ++ [n_neigh])
+      (node_is_lin, queue)
+    else
+      (node_is_lin, queue)) with
+    | (node_is_lin, queue) =>
+      propagate_for2 rest__ node_is_lin queue
+
+/-- `while len(queue) > 0:` of `propagate_lin_cc_judgements` (fuel = maximal number of iterations) -/
+def propagate_while1 (E : List (Nat × Nat)) : Nat → List Nat → (Nat → Bool) → Option (List Nat × (Nat → Bool))
+  | 0, _, _ => none
+  | fuel + 1, queue, node_is_lin =>
+    if (queue.length > 0) then
+      match queue with
+      | [] => none
+      | m :: queue =>
+        match (if (¬ (node_is_lin m = true)) then
+          let dependent_neighbours : List Nat := ((E.filter (fun (n1, n2) => decide (n2 = m))).map (fun (n1, n2) => n1))
+          match (propagate_for2 dependent_neighbours node_is_lin queue) with
+          | (node_is_lin, queue) =>
+            (node_is_lin, queue)
+        else
+          (node_is_lin, queue)) with
+        | (node_is_lin, queue) =>
+          propagate_while1 E fuel queue node_is_lin
+    else some (queue, node_is_lin)
+
+/-- `propagate_lin_cc_judgements` -- `node_is_lin` (a dict over the state variables) is a function on indices `0 … n-1`; its `.items()` are listed in index order -/
+def propagate (fuel : Nat) (n : Nat) (node_is_lin : Nat → Bool) (E : List (Nat × Nat)) : Option (Nat → Bool) :=
+  let queue : List Nat := (((Py.items n node_is_lin).filter (fun (sym, is_lin_cc) => decide (is_lin_cc = false))).map (fun (sym, is_lin_cc) => sym))
+  match propagate_while1 E fuel queue node_is_lin with
+  | none => none
+  | some (queue, node_is_lin) =>
+    some node_is_lin
+
+end OdeVerif.Generated
